@@ -33,6 +33,8 @@ mod dom_cdc;
 mod dom_assign;
 mod dom_wide;
 mod dom_engexpr;
+mod dom_swap;
+mod dom_reuse;
 
 fn main() {
     let args: Vec<String> = std::env::args().skip(1).collect();
@@ -66,6 +68,8 @@ fn main() {
         "cosim" => dom_cosim::main(&opts),
         "cdc" => dom_cdc::main(&opts),
         "assign" => dom_assign::main(&opts),
+        "swap" => dom_swap::main(&opts),
+        "reuse" => dom_reuse::main(&opts),
         "hash" => {
             // content hashes exactly as the incremental cache computes them
             for f in &opts.rest {
